@@ -160,12 +160,13 @@ PROPS = {
                  'T8 rely: at every lock acquisition the store may have become ANY store satisfying the invariant (other threads keep the invariant); guarantee: this thread keeps it (lemmas of unit ptlookup)'],
     ),
     'C04': dict(
-        vx_units=['iobuffers', 'fusedevw', 'asyncdevw', 'virtiofsw', 'virtiofsw_async', 'writerenum', 'readerrd', 'filebuf'], kx=['file_buf'],
+        vx_units=['iobuffers', 'fusedevw', 'asyncdevw', 'virtiofsw', 'virtiofsw_async', 'writerenum', 'readerrd', 'filebuf', 'zcstreams'], kx=['file_buf'],
         design_ref='DESIGN.md A.4',
         not_covered=[
             'IoBuffers::available_bytes (iterator fold): assumed contract (returns the number of addresses still covered when that fits in usize)',
             'virtio-queue / vm-memory themselves: DescriptorChain::{readable, writable} and their iterators, GuestMemory::find_region, GuestMemoryRegion::get_slice are models written from the texts of virtio-queue 0.17.0 / vm-memory 0.17.1 (indirect tables, the 2^32 cap of a chain are theirs); guest memory is a snapshot during one operation (a guest modifying a request buffer while it is read is not modelled); std read_exact / write_all are verified hand copies of the std text',
             'contents of the bytes a file transfer appends (that the file fills exactly what it reports is assumed); FuseDevWriter::write_all_from on an UNBUFFERED writer (stated as a precondition: a second round trips the writer\'s own assert - public-API observation F1, not reachable through the server); slice totals >= 2^64 in write_vectored',
+            'file transfers above the transports (unit zcstreams): the provided methods of ZeroCopyReader / ZeroCopyWriter (read_exact_to, write_all_from, copy_to_end) are proved to issue a CHAIN of transfer calls whose (count, offset) follow what the calls before reported, the Zc* adapters of the server to forward one call unchanged, the overlay File adapters to relay in order within their buffer and to leave the source positioned behind exactly what the sink accepted (D29); NOT covered: termination of the retry loops, the transports\' own Ok(0) => WriteZero rule, byte contents beyond the address log',
             'file-buffer adapters: FileVolatileSlice / FileVolatileBuf and `impl FileReadWriteVolatile for File` (the volatile_impl! instance, its default loops, the &mut T / Arc<T> forwarders, the async vectored functions) are proved for all lengths in unit filebuf against a model of vm-memory 0.17.1 VolatileSlice / Bytes written from its text; the Kani group kx:file_buf (lengths 0..4) remains as a bounded check that vm-memory\'s real code behaves like that model; NOT covered: slice lists longer than i32::MAX, the default vectored trait bodies (File overrides them), termination of the Interrupted-retry loops, async_file.rs itself (a model); API-level preconditions of the async vectored functions (buffers empty for a read / full for a write: observation F4)',
         ],
         trusted=['T3 vm_memory::VolatileSlice as (address, length) with offset() / subslice() as documented, ranges do not wrap the address space; VecDeque via vstd',
@@ -201,7 +202,7 @@ PROPS = {
                  'T8 contract-only syscall wrappers: open_inode, import, do_lookup, forget, create_file_excl, set_creds, drop_cap_fsetid, sync_fd, stat_fd (handles.py docstring A5); fewer than 2^64-1 handle allocations'],
     ),
     'C10': dict(
-        vx_units=['ovl_layer', 'ovl_real', 'ovl_merge', 'ovl_ops', 'ovl_inodes', 'ovl_view', 'ovl_bk'], kx=[],
+        vx_units=['ovl_layer', 'ovl_real', 'ovl_merge', 'ovl_ops', 'ovl_inodes', 'ovl_view', 'ovl_bk', 'ovl_read'], kx=[],
         design_ref='DESIGN.md A.4 / A.6',
         not_covered=[
             'equality of the whole visible tree with the overlayfs union over operation HISTORIES as one statement: decided are the union rules for ONE name over arbitrary layer listings, the "only the upper layer is ever modified" frame, and - since unit ovl_view - the live view per operation (load_directory enters exactly the union of the layers under fresh numbers, lookup_node / do_lookup resolve exactly the table entry, forget removes exactly the forgotten node, do_readdir lists every visible child once); the bookkeeping inside the mutating operations is covered per operation by unit ovl_bk (create / mkdir / mknod / symlink / link enter exactly one new node with a fresh or remembered-and-free number; unlink / rmdir take exactly the node out, give up its reservation, leave a whiteout node as the whiteout rule says; copy-up leaves the view alone) under the invariants its lemmas take as hypotheses (reservation / table consistency over histories is not mechanised); known finding D26 (a failed whiteout creation leaves the name removed); LINK makes a node and a number of its own for the new name (observation K3); import(), rename (unimplemented: EXDEV)',
@@ -212,9 +213,10 @@ PROPS = {
                  'rules R26 (named local closure lifted), R27 (unused zip counter dropped), R28 (`for` over an owned collection as its iterator loop), R29 (handle_upper_inode_locked callback inlined against its dispatch contract); logged abstractions of the readdir paging loop, Vec::drain/extend, libc major/minor/makedev (verified copies)'],
     ),
     'C11': dict(
-        vx_units=['ovl_ops', 'ovl_merge', 'ovl_layer'], kx=[],
+        vx_units=['ovl_ops', 'ovl_merge', 'ovl_layer', 'zcstreams'], kx=[],
+        # the File adapters copy-up streams content through (unit zcstreams, tags C04.zc.ovl_*) count for C11 too;
         # the argument-level capabilities of the copy-up functions (name, mode, link target, bytes) carry C11's "copy-up preserves" clause
-        alias=[r'^ovl_ops\.(copy_regfile_up|copy_symlink_up|create_upper_dir|copy_node_up)\.'],
+        alias=[r'^ovl_ops\.(copy_regfile_up|copy_symlink_up|create_upper_dir|copy_node_up)\.', r'^C04\.zc\.ovl_'],
         design_ref='DESIGN.md A.4 / A.6',
         not_covered=[
             'equality of a restarted instance\'s tree with the running one over histories as a whole: decided are the per-function obligations that make it hold (whiteout left / opaque set whenever the lower layers still show the name - record invariant preserved by every operation; copy-up preserves name, mode, link target, content, parents first), the link from the record to the on-disk layer contents is an assumed predicate (S-SCAN-COMPLETE, S-REC-SCAN)',
@@ -236,7 +238,7 @@ PROPS = {
                  'cargo feature `persist` switched on for these units only; rules R33 (iter().map().collect() as an index loop) and R34 (`if C { continue; } REST` as if/else)'],
     ),
     'C20': dict(
-        vx_units=['asyncsrv', 'asyncdevw', 'asyncarcfs', 'asyncvfs', 'server', 'arcfs', 'vfs', 'writerenum', 'virtiofsw_async', 'asyncpt'], kx=[],
+        vx_units=['asyncsrv', 'asyncdevw', 'asyncarcfs', 'asyncvfs', 'server', 'arcfs', 'vfs', 'writerenum', 'virtiofsw_async', 'asyncpt', 'zcstreams'], kx=[],
         # the async entry points of VirtioFsWriter are verified in unit virtiofsw_async against the clauses of their sync twins (same cursor movement, same marking, same refusals)
         alias=[r'^C04\.async_', r'^C17\.async_', r'^virtiofsw_async\.'],
         design_ref='DESIGN.md A.4',
@@ -244,7 +246,7 @@ PROPS = {
             'which error reply (or none) a MALFORMED request gets: the specification allows any well-formed error reply there, so two different ones would both verify (by reading, the two paths are identical)',
             'that the operation IS invoked (capabilities forbid calls, they cannot demand one); that a reply is sent is covered as on the sync side, on results ([C20.<op>.replied] / [C20.<op>.answered], same clauses as C01)',
             'interleavings with other tasks, cancellation at an await point, Send and lifetime obligations of the futures (rule R18 drops `async` and `.await`)',
-            'bytes moved through AsyncZcWriter / AsyncZcReader',
+            'bytes moved through AsyncZcWriter / AsyncZcReader beyond the forwarding itself (unit zcstreams: each async adapter method is ONE call of the corresponding async transport method with the same file, count and offset, result unchanged - tags C20.zc.*)',
             'non-forwarding bodies of the Arc<FS> AsyncFileSystem impl are undecided (exit 2); async results cannot carry the passthrough backing id (Vfs async_open / async_create are specified as the sync result minus that component); the AsyncFileSystem impl of OverlayFs (there is none in this tree); the one of PassthroughFs is covered (unit asyncpt: every async operation is its sync twin with the same arguments)',
             'logging and MetricsHook calls',
         ],
